@@ -227,6 +227,14 @@ impl<'tcx> Cx<'tcx> {
                             let _ = write!(s, ",\"v\":{}", js(&format!("{}", bits)));
                         }
                     }
+                    // string / byte-string literals: keep the contents
+                    if let Const::Val(cv @ ConstValue::Slice { .. }, _) = c.const_ {
+                        if let Some(bytes) = cv.try_get_slice_bytes_for_diagnostics(tcx) {
+                            if bytes.len() <= 512 {
+                                let _ = write!(s, ",\"str\":{}", js(&String::from_utf8_lossy(bytes)));
+                            }
+                        }
+                    }
                     if let Const::Unevaluated(u, _) = c.const_ {
                         let _ = write!(s, ",\"def\":{}", js(&tcx.def_path_str(u.def)));
                     }
